@@ -97,10 +97,32 @@ fn apply_all(inst: &mut Inst, ups: &[MMember], chunked: bool, bcast: bool) -> bo
     }
 }
 
+const WIRE_SENDER_ADDR: u16 = 7;
+
+/// the same updates delivered as Gossip datagrams (1..3 updates each) from an active member
+fn apply_wire(inst: &mut Inst, ups: &[MMember], g: &mut G) -> bool {
+    let sender = VId::new(WIRE_SENDER_ADDR, 0, 0, 0);
+    let own = inst.snapshot().identity;
+    let mut i = 0;
+    while i < ups.len() {
+        let n = (1 + g.below(3) as usize).min(ups.len() - i);
+        let mut d = header_bytes(&foca::Header { src: sender, src_incarnation: 0, dst: own, message: foca::Message::Gossip });
+        d.extend([(n >> 8) as u8, n as u8]);
+        for u in &ups[i..i + n] {
+            d.extend(member_bytes(&u.to_member()));
+        }
+        if run_real(&mut inst.foca, &Input::Data(d)).1 != Outcome::Done {
+            return false;
+        }
+        i += n;
+    }
+    true
+}
+
 /// C01: order / multiplicity independence, re-applying own state, pairwise exchange
 pub fn c01(seed: u64, budget: u64) -> FOut {
     let mut out = FOut::default();
-    out.rule = "random update multisets over 4 addresses x 4 generations x incarnations {0,1,2,3,255,256,2^15-1,2^15,2^15+1,2^15+2,MAX-1,MAX, random u16} x 3 states (plus other identities of the instance's own address), sizes 1..10; each applied in 6 random permutations with random duplications through the real apply_many (whole list or one by one); views compared as address maps modulo the incarnation next to Down; then re-apply own state; then exchange between two instances. distinct = distinct sorted multisets with at least two updates on one address".into();
+    out.rule = "random update multisets over 4 addresses x 4 generations x incarnations {0,1,2,3,255,256,2^15-1,2^15,2^15+1,2^15+2,MAX-1,MAX, random u16} x 3 states (plus other identities of the instance's own address), sizes 1..10; each applied in 6 random permutations with random duplications - five through the real apply_many (whole list or one by one), one over the wire as Gossip datagrams through handle_data; views compared as address maps modulo the incarnation next to Down; then re-apply own state; then exchange between two instances. distinct = distinct sorted multisets with at least two updates on one address".into();
     let mut g = G::new(seed ^ 0xC01);
     let own = VId::new(9, 1, 0, 0);
     let incs = [0u16, 1, 2, 3, 255, 256, 32767, 32768, 32769, 32770, 65534, 65535];
@@ -144,11 +166,20 @@ pub fn c01(seed: u64, budget: u64) -> FOut {
                     l.insert(at, x);
                 }
             }
-            if !apply_all(&mut inst, &l, g.chance(50), g.chance(50)) {
+            // the last permutation arrives over the wire (Gossip datagrams from a member outside the
+            // address range used), the others through apply_many
+            let wire = perm == 5;
+            if wire {
+                if !apply_wire(&mut inst, &l, &mut g) {
+                    out.hit("C01:handle_data-error", J::s(format!("{l:?}")));
+                    continue;
+                }
+            } else if !apply_all(&mut inst, &l, g.chance(50), g.chance(50)) {
                 out.hit("C01:apply_many-error", J::s(format!("{l:?}")));
                 continue;
             }
-            let v = view_of(&mut inst);
+            let mut v = view_of(&mut inst);
+            v.remove(&WIRE_SENDER_ADDR);
             match &reference {
                 None => {
                     reference = Some(v.clone());
@@ -441,7 +472,7 @@ pub fn c06(seed: u64, budget: u64) -> FOut {
 /// C11: suspicion timeout takes effect iff unrefuted; Down final until forgotten
 pub fn c11(seed: u64, budget: u64) -> FOut {
     let mut out = FOut::default();
-    out.rule = "exhaustive case table on the real crate: stored record {absent, Alive, Suspect, Down} x stored incarnation vs timer incarnation {<,=,>} x timer identity generation {older, same} vs stored x token {current, stale} x notify_down_members {on,off} x duplicate delivery, with a second active member keeping the instance connected; expected: effect iff token current, same identity, same incarnation, record active; otherwise no effect at all. Then genuine timers: the suspicion is raised by a real failed probe round (instance 0..2 refutations ahead of the member, member at incarnation 0/1/7) and the timer the instance scheduled itself is fired, unrefuted (must take effect) or after a header with a higher incarnation (must have none). Then random histories checking that a Down identity never becomes active again before its RemoveDown fires (or a newer identity supersedes it). distinct = distinct table rows + histories with at least one Down record".into();
+    out.rule = "exhaustive case table on the real crate: stored record {absent, Alive, Suspect, Down} x stored incarnation vs timer incarnation {<,=,>} x timer identity generation {older, same} vs stored x token {current, stale} x notify_down_members {on,off} x duplicate delivery, with a second active member keeping the instance connected; expected: effect iff token current, same identity, same incarnation, record active; otherwise no effect at all. Then genuine timers: the suspicion is raised by a real failed probe round (instance 0..2 refutations ahead of the member, member at incarnation 0/1/7) and the timer the instance scheduled itself is fired, unrefuted (must take effect) or after a header with a higher incarnation (must have none). Then epochs: a timeout scheduled before leave_cluster / TurnUndead / Down(self) / change_identity fires afterwards with the record still Suspect (must have no effect). Then random histories checking that a Down identity never becomes active again before its RemoveDown fires (or a newer identity supersedes it). distinct = distinct table rows + histories with at least one Down record".into();
     let own = VId::new(9, 1, 0, 0);
     let other = VId::new(2, 0, 0, 0);
     for notify in [false, true] {
@@ -568,6 +599,52 @@ pub fn c11(seed: u64, budget: u64) -> FOut {
             }
         }
     }
+    // epochs: a timeout scheduled before the instance went idle / defunct / changed identity must have no
+    // effect when it fires afterwards (the record being still Suspect at the same incarnation)
+    for how in 0..4u8 {
+        for notify in [false, true] {
+            let mut cfg = big_cfg();
+            cfg.notify_down_members = notify;
+            // renew mode 0 of the harness identity: not renewable (k = 0)
+            let mut a = Inst::new(own, &cfg, seed ^ (77 + how as u64), 0, 255);
+            let b = VId::new(1, 0, 0, 0);
+            run_real(&mut a.foca, &Input::ApplyMany(vec![MMember { id: b, inc: 3, state: 0 }, MMember { id: other, inc: 0, state: 0 }], false));
+            // b becomes Suspect through gossip; the timeout is the one a failed round would have scheduled
+            run_real(&mut a.foca, &Input::ApplyMany(vec![MMember { id: b, inc: 3, state: 1 }], false));
+            let tok = a.snapshot().token;
+            let t = MTimer::SuspectToDown(b, 3, tok);
+            let what = match how {
+                0 => {
+                    run_real(&mut a.foca, &Input::Leave);
+                    "leave_cluster"
+                }
+                1 => {
+                    run_real(&mut a.foca, &Input::Data(mk_dgram(other, 0, own, foca::Message::TurnUndead)));
+                    "TurnUndead received (identity not renewable)"
+                }
+                2 => {
+                    run_real(&mut a.foca, &Input::ApplyMany(vec![MMember { id: own, inc: 0, state: 2 }], false));
+                    "Down(self) learnt (identity not renewable)"
+                }
+                _ => {
+                    run_real(&mut a.foca, &Input::ChangeIdentity(VId { g: own.g + 1, ..own }));
+                    "change_identity"
+                }
+            };
+            let pre = a.snapshot();
+            let still_suspect = pre.members.iter().any(|m| m.id == b && m.state == 1 && m.inc == 3);
+            let (effs, _) = run_real(&mut a.foca, &Input::Timer(t.clone()));
+            let post = a.snapshot();
+            out.runs += 1;
+            out.distinct.insert(hash_of(&("epoch", how, notify)));
+            if still_suspect && (!effs.is_empty() || post != pre) {
+                out.hit(
+                    "C11:timeout-of-an-earlier-epoch-has-effect",
+                    J::obj(vec![("after", J::s(what)), ("notify", J::B(notify)), ("timer", J::s(format!("{t:?}"))), ("token_now", J::n(pre.token)), ("conn", J::n(pre.conn)), ("effects", J::s(format!("{effs:?}")))]),
+                );
+            }
+        }
+    }
     // Down is final until forgotten
     for h in 0..budget {
         let mut down: std::collections::HashMap<VId, ()> = Default::default();
@@ -612,7 +689,7 @@ pub fn c11(seed: u64, budget: u64) -> FOut {
 /// C09: one record per address; identities move forward; own address never active; discard
 pub fn c09(seed: u64, budget: u64) -> FOut {
     let mut out = FOut::default();
-    out.rule = "seeded single-instance histories (300 calls, several generations per address incl. the instance's own); after every call: no two records share an address, no active record bears the own address, number of records <= distinct addresses told so far, every Rename(a,b) has b winning against a, the identity stored for an address only changes to one that wins (until the address is forgotten), and a datagram whose sender is not active after header processing (Down or superseded) leaves every other record untouched and reaches the handler with no item. distinct = histories with at least one Rename or own-address record".into();
+    out.rule = "seeded single-instance histories (300 calls, several generations per address incl. the instance's own); after every call: no two records share an address, no active record bears the own address, number of records <= distinct addresses told so far, every Rename(a,b) has b winning against a, the identity stored for an address only changes to one that wins (until the address is forgotten), a datagram changes only records of addresses it names itself (sender, member section), and a datagram whose sender is not active after header processing (Down or superseded) leaves every other record untouched and reaches the handler with no item. distinct = histories with at least one Rename or own-address record".into();
     for h in 0..budget {
         let mut hits: Vec<(String, J)> = vec![];
         let mut told: HashSet<u16> = HashSet::new();
@@ -695,6 +772,31 @@ pub fn c09(seed: u64, budget: u64) -> FOut {
                     if n.id != m.id && !(from_old && to_new) {
                         hits.push(("C09:replacement-without-rename".into(), J::s(format!("{:?} -> {:?} on {input:?}", m.id, n.id))));
                     }
+                }
+            }
+            // a datagram changes only records of addresses it names itself (its sender, its member section)
+            if let Input::Data(b) = input {
+                let mut named: HashSet<u16> = HashSet::new();
+                let mut cur = &b[..];
+                if let Ok(h) = dec_header(&mut cur) {
+                    named.insert(h.src.a);
+                    if cur.len() >= 2 {
+                        let cnt = u16::from_be_bytes([cur[0], cur[1]]);
+                        cur = &cur[2..];
+                        for _ in 0..cnt {
+                            match dec_member(&mut cur) {
+                                Ok(m) => {
+                                    named.insert(m.id().a);
+                                }
+                                Err(_) => break,
+                            }
+                        }
+                    }
+                }
+                let changed: Vec<u16> = pre.members.iter().filter(|m| !post.members.contains(m)).map(|m| m.id.a)
+                    .chain(post.members.iter().filter(|m| !pre.members.contains(m)).map(|m| m.id.a)).collect();
+                if let Some(a) = changed.iter().find(|a| !named.contains(a)) {
+                    hits.push(("C09:record-change-not-named-by-datagram".into(), J::s(format!("address {a} changed on {input:?}: pre={:?} post={:?}", pre.members, post.members))));
                 }
             }
             // discard
@@ -946,8 +1048,25 @@ pub fn gen_rejected(g: &mut G, s: &MState) -> Input {
             }
             7 => return Input::ChangeIdentity(s.identity),
             8 => {
+                // a config that must be refused (timing change, or a periodic task switched on) and that also
+                // differs in fields a valid config may change (packet size, transmissions, ...)
                 let mut c = s.cfg.clone();
-                c.probe_period += MS;
+                match g.below(4) {
+                    0 => c.probe_period += MS,
+                    1 => c.probe_rtt += MS,
+                    2 if c.periodic_gossip.is_none() => c.periodic_gossip = Some((100 * MS, 1)),
+                    3 if c.periodic_announce.is_none() => c.periodic_announce = Some((5000 * MS, 1)),
+                    _ => c.probe_period += 2 * MS,
+                }
+                if g.chance(70) {
+                    c.max_packet_size = *g.pick(&[40u128, 64, 100, 700, 1400, 3000]);
+                }
+                if g.chance(30) {
+                    c.max_transmissions = 1 + g.below(6) as u128;
+                }
+                if g.chance(30) {
+                    c.notify_down_members = !c.notify_down_members;
+                }
                 return Input::SetConfig(c);
             }
             9 => return Input::AddBroadcast(vec![]),
